@@ -548,37 +548,50 @@ def norm_ty(t):
     return its[0] if len(its) == 1 else ('U', its)
 
 
+def parse_canon(c: str):
+    """canonical type text (ty_canon / the OCaml driver's ty_s) -> ty"""
+    def split(body: str) -> list[str]:
+        out, depth, cur = [], 0, ""
+        for ch in body:
+            if ch == "," and depth == 0:
+                out.append(cur)
+                cur = ""
+                continue
+            depth += ch == "["
+            depth -= ch == "]"
+            cur += ch
+        return out + ([cur] if cur or out else [])
+    if c == "Never":
+        return ('U', [])
+    if c in ("int", "bool", "str", "None"):
+        return {"int": INT, "bool": BOOL, "str": STR, "None": NONE}[c]
+    if c.startswith("Union["):
+        return ('U', [parse_canon(x) for x in split(c[6:-1])])
+    if c.startswith("Tuple["):
+        return ('T', [parse_canon(x) for x in split(c[6:-1])])
+    m = re.fullmatch(r"C(\d+)", c)
+    if m:
+        return ('C', int(m.group(1)))
+    raise TypeParseError(f"bad canonical type {c!r}")
+
+
 def union_canon(canons: list[str], p: dict | None = None) -> str:
-    """union of canonical type strings (for probes inside loops: one per pass); items subsumed by a
-    superclass item are dropped, as make_simplified_union does"""
-    its: set[str] = set()
+    """simplified union of canonical type strings (probes inside loops: one per pass): an item that is a subtype of
+    another item is dropped, as make_simplified_union does (classes via the MRO, tuples item-wise, bool under int)"""
+    q = p if p is not None else {'classes': []}
+    items: list = []
     for c in canons:
-        if c == "Never":
+        for y in members(parse_canon(c)):
+            if y not in items:
+                items.append(y)
+    kept: list = []
+    for i, t in enumerate(items):
+        if any(psub(q, t, u) for u in kept):
             continue
-        if c.startswith("Union["):
-            depth = 0
-            cur = ""
-            for ch in c[6:-1]:
-                if ch == "," and depth == 0:
-                    its.add(cur)
-                    cur = ""
-                    continue
-                depth += ch == "["
-                depth -= ch == "]"
-                cur += ch
-            its.add(cur)
-        else:
-            its.add(c)
-    if "int" in its and "bool" in its:
-        its.discard("bool")
-    if p is not None:
-        for c in [x for x in its if re.fullmatch(r"C\d+", x)]:
-            cd = class_by_id(p, int(c[1:]))
-            if cd and any(f"C{b}" in its for b in cd['mro'][1:]):
-                its.discard(c)
-    if not its:
-        return "Never"
-    return sorted(its)[0] if len(its) == 1 else "Union[" + ",".join(sorted(its)) + "]"
+        if any(psub(q, t, u) and not psub(q, u, t) for u in items[i + 1:]):
+            continue
+        kept.append(t)
+    return ty_canon(kept[0] if len(kept) == 1 else ('U', kept))
 
 
 # ---------------------------------------------------------------------------------------------
@@ -1084,7 +1097,7 @@ class Gen:
         if r.random() < 0.5:
             return []
         self.reset_beliefs(cb)
-        c, _, _ = self.cond(cb)
+        c = ('bin', r.choice(['<', '=']), self.expr(cb, INT, 1, True), self.expr(cb, INT, 1, True))
         return [('sif', c, [(r.choice(['brk', 'cont']),)], [])]
 
     def for_stmt(self, ctx: dict, depth: int) -> list:
@@ -1435,6 +1448,15 @@ def corpus() -> list[tuple[str, dict, list]]:
             ('as', 3, ('I', 3)), ('aug', 3, '*', ('I', 2)), ('ex', ('rev', V(3))), ('ret', V(2))]
     out.append(("augmented-int-str", {'classes': [], 'funcs': [(1, {'params': [(1, INT)], 'ret': INT, 'body': body})]},
                 [(1, [['i', 2]]), (1, [['b', 1]])]))
+    # a narrowing entry (flag False) taken at `break` hides the assignment made earlier in the loop
+    body = [('sif', ('inn', V(1)),
+             [('de', 2, INT, ('I', 0)),
+              ('wh', ('bin', '<', V(2), ('I', 2)), [('as', 2, ('bin', '+', V(2), ('I', 1))), ('as', 1, ('N',)),
+                                                     ('sif', ('isn', V(1)), [('brk',)], [])], []),
+              ('ex', ('rev', V(1))), ('ret', ('bin', '+', V(1), ('I', 1)))], []),
+            ('ret', ('I', 0))]
+    out.append(("break-in-narrowing-frame", {'classes': [], 'funcs': [(1, {'params': [(1, OI)], 'ret': INT, 'body': body})]},
+                [(1, [['i', 4]]), (1, [['n']])]))
     # break out of a try block whose finally re-assigns the narrowed local
     body = [('de', 2, OI, ('N',)), ('as', 2, ('I', 1)),
             ('wh', ('bin', '<', V(1), ('I', 3)), [('as', 1, ('bin', '+', V(1), ('I', 1))), ('fin', [('brk',)], [('as', 2, ('N',))])], []),
@@ -1645,6 +1667,8 @@ FLAG_KEY = "flag-enum-narrowed-as-closed-set-of-named-members"
 FIN_KEY = "break-through-finally-ignores-finally-assignments"
 SWAP_KEY = "tuple-assignment-swap-reads-updated-narrowing"
 WALRUS_KEY = "walrus-in-if-condition-narrowing-survives-merge"
+MASK_KEY = "narrowing-entry-masks-earlier-assignment-at-jump-merge"
+PATLIT_KEY = "class-pattern-unmatchable-subpattern-consumes-literal-subject"
 
 
 def units_of(p: dict) -> list[tuple[str, list[int]]]:
@@ -1834,8 +1858,9 @@ def minipy_stage(ctx: vlib.Ctx, exe: str, progs: list[tuple[str, dict, list]], t
                 cap = inf["accepted_model"] and not inf["certified"]
                 has_loop = "7" in inf["why_not"]
                 fin = "10" in inf["why_not"]
-                key = (FIN_KEY if fin else CAP_KEY if has_loop else MI_KEY) if cap else f"minipy:{inf['name']}"
-                ctx.violation(key, f"mypy accepts the program but {bad}" + ((" [break/continue leaves a try block whose finally assigns: the binder's break snapshot ignores the finally block]" if fin else " [loop analysis stopped at its iteration cap before a fixed point]" if has_loop else " [isinstance narrowing of a union dropped an item that shares a subclass with the tested class]") if cap else ""),
+                mask = "6" in inf["why_not"]
+                key = (FIN_KEY if fin else CAP_KEY if has_loop else MASK_KEY if mask else MI_KEY) if cap else f"minipy:{inf['name']}"
+                ctx.violation(key, f"mypy accepts the program but {bad}" + ((" [break/continue leaves a try block whose finally assigns: the binder's break snapshot ignores the finally block]" if fin else " [a condition's narrowing entry (from_assignment=False) hides an earlier assignment when break/continue snapshots are merged]" if mask and not has_loop else " [loop analysis stopped at its iteration cap before a fixed point]" if has_loop else " [isinstance narrowing of a union dropped an item that shares a subclass with the tested class]") if cap else ""),
                               {"kind": "minipy", "name": inf["name"], "src": mods[m], "call": item["calls"][j], "outcome": r,
                                "prog": strip_private(inf["p"]), "calls": inf["calls"]})
                 if not cap and inf["accepted_model"] and inf["certified"]:
@@ -2432,7 +2457,8 @@ def wide_stage(ctx: vlib.Ctx, tmp: str, n: int, n_flow: int | None = None) -> No
                 bad = f"line {hit[0]}, reported unreachable by mypy, was executed"
             if bad is not None:
                 key = {"loop_chain": CAP_KEY, "mi_isinstance": MI_KEY, "directed:flag-identity": FLAG_KEY,
-                       "directed:swap-narrowed": SWAP_KEY, "directed:walrus-condition": WALRUS_KEY}.get(fam) or f"wide:{fam}:{re.sub(r'[0-9]+', 'N', bad[:70])}"
+                       "directed:swap-narrowed": SWAP_KEY, "directed:walrus-condition": WALRUS_KEY,
+                       "directed:break-in-narrowing-frame": MASK_KEY, "directed:class-pattern-literal-subject": PATLIT_KEY}.get(fam) or f"wide:{fam}:{re.sub(r'[0-9]+', 'N', bad[:70])}"
                 ctx.violation(key, f"[{fam}] mypy accepts the program but {bad}", {"kind": "wide", "family": fam, "src": mods[m], "call": r["call"], "outcome": r})
 
 
@@ -2604,13 +2630,13 @@ def mark(k: int) -> None:
 # kind -> (annotation, [value expressions], [narrowing conditions on {x}], match arms)
 FLOW_KINDS: dict[str, tuple[str, list[str], list[str], list[str]]] = {
     "oi": ("Optional[int]", ["None", "1", "0", "7"], ["{x} is None", "{x} is not None", "{x}", "not {x}", "isinstance({x}, int)"],
-           ["case None:", "case int(0):", "case int(n0) if n0 > 3:", "case 1 | 2:", "case int():", "case _:"]),
+           ["case None:", "case int(n0) if n0 > 3:", "case 1 | 2:", "case int():", "case _:"]),
     "num": ("Union[int, float, str]", ["1", "0", "2.5", "0.0", "'s'", "''"],
             ["isinstance({x}, int)", "isinstance({x}, (int, float))", "isinstance({x}, str)", "not {x}", "{x} == 0"],
-            ["case int(0):", "case float(f0) if f0 > 1.0:", "case str('s'):", "case int() | float():", "case str(s0):", "case _:"]),
+            ["case float(f0) if f0 > 1.0:", "case int() | float():", "case str(s0):", "case _:"]),
     "bts": ("Union[bytes, str, bool, None]", ["None", "b'x'", "b''", "'x'", "True", "False"],
             ["{x} is None", "isinstance({x}, bytes)", "isinstance({x}, (bytes, str))", "not {x}", "{x} is True"],
-            ["case None:", "case bytes(b'x'):", "case bool(True):", "case str('x') | bytes():", "case bool(bb):", "case _:"]),
+            ["case None:", "case bool(bb):", "case str() | bytes():", "case _:"]),
     "col2": ("Union[Set[int], List[int], Tuple[int, ...], None]", ["None", "{{1}}", "set()", "[1, 2, 3]", "[]", "(1, 2)", "()"],
              ["{x} is None", "isinstance({x}, set)", "isinstance({x}, (list, tuple))", "not {x}", "{x}"],
              ["case None:", "case set():", "case [first, *rest]:", "case []:", "case list(l0):", "case tuple():", "case _:"]),
@@ -2745,7 +2771,7 @@ class FlowGen:
                 out = [f"{ind}{i} = 0", f"{ind}while {i} < {r.randint(1, 4)}:", f"{i2}{i} += 1"]
             out += self.block(i2, depth - 1, None, True)
             if r.random() < 0.5:
-                out += [f"{i2}if {self.cond()}:", f"{i2}    {r.choice(['break', 'continue'])}"] + self.assign(i2)
+                out += [f"{i2}if trigger % {r.randint(2, 4)} == {r.randint(0, 1)}:", f"{i2}    {r.choice(['break', 'continue'])}"] + self.assign(i2)
             if r.random() < 0.5:
                 out += [f"{ind}else:"] + self.block(i2, depth - 1, r.randint(1, 2), in_loop)
             return out
@@ -2999,6 +3025,31 @@ def run(n: int) -> int:
     return 0
 """
     out.append(("walrus-condition", src, ["run(0)", "run(3)"]))
+    # findings 7 and 8 (seen first in random flow programs of the thorough tier)
+    src = H + """def run(x: Union[List[int], None]) -> int:
+    if isinstance(x, list):
+        w = 0
+        while w < 2:
+            w += 1
+            x = None
+            if not x:
+                break
+        reveal_type(x)
+    return 0
+"""
+    out.append(("break-in-narrowing-frame", src, ["run([1])", "run(None)"]))
+    src = H + """def run(x: Union[bytes, str, None]) -> int:
+    x = b''
+    if not x:
+        reveal_type(x)
+        match x:
+            case bytes(b'x'):
+                return 1
+            case bytes():
+                return 2
+    return 0
+"""
+    out.append(("class-pattern-literal-subject", src, ["run(None)"]))
     # Flag enums: composite values are members of the class but of none of its named literals
     src = H + """def run(p: Union[Perm, None]) -> int:
     if p is Perm.R:
